@@ -18,6 +18,7 @@ import (
 	"github.com/beevik/etree"
 	dsig "github.com/russellhaering/goxmldsig"
 	"github.com/zitadel/saml/pkg/provider"
+	"github.com/zitadel/saml/pkg/provider/key"
 
 	"verif/harness/internal/coqgen"
 	"verif/harness/internal/idp"
@@ -376,6 +377,33 @@ func Run(dir, tier string, seed int64) error {
 					fail("certificate-endpoint-differs-from-metadata", fmt.Sprintf("certificate endpoint serves %d bytes that are not the metadata certificate", len(cr.Body)), desc)
 				}
 			}
+			// a rotated signing key: the next metadata document, the certificate endpoint and the next assertion all follow it
+			if ci%9 == 0 && eff[1].url == "" && eff[0].url == "" {
+				old := env.Storage.RespKey
+				_, _, _, other := idp.Keys()
+				env.Storage.RespKey = &key.CertificateAndKey{Certificate: other.CertDER, Key: other.Key}
+				rep2 := env.Do(spec.HTTP())
+				var cert2 string
+				if rep2.Doc != nil {
+					rep2.Doc.Walk(func(n *idp.Node) {
+						if n.Local == "X509Certificate" && cert2 == "" {
+							cert2 = strings.TrimSpace(n.TextOf())
+						}
+					})
+				}
+				der2, _ := base64.StdEncoding.DecodeString(cert2)
+				cr := env.Do(idp.ReqSpec{Method: http.MethodGet, Path: esc(rel(eff[1].path)), Host: host}.HTTP())
+				blk, _ := pem.Decode(cr.Body)
+				run.Count("key-rotation-probed")
+				if !bytes.Equal(der2, other.CertDER) || blk == nil || !bytes.Equal(blk.Bytes, other.CertDER) {
+					fail("metadata-certificate-stale-after-key-rotation", "after the response signing key was replaced in storage, the metadata KeyDescriptor or the certificate endpoint still serve the previous certificate", desc)
+				} else if eff[2].url == "" {
+					if msg := verifyCallback(env, host, esc(rel(eff[2].path)), der2); msg != "" {
+						fail("assertion-not-verifiable-with-metadata-certificate", "after key rotation: "+msg, desc)
+					}
+				}
+				env.Storage.RespKey = old
+			}
 			if ci%5 == 0 && eff[2].url == "" {
 				if msg := verifyCallback(env, host, esc(rel(eff[2].path)), der); msg != "" {
 					fail("assertion-not-verifiable-with-metadata-certificate", msg, desc)
@@ -434,7 +462,7 @@ func Run(dir, tier string, seed int64) error {
 			}
 		}
 	}
-	run.Res.Rule = "provider configurations: every issuer kind (static with/without path and trailing slash, with port; host-derived with / without path and leading slash; Forwarded-derived) with the default endpoints; each of the six endpoints (metadata, certificate, callback, SSO, SLO, attribute) set to each of 8 shapes (custom path with/without leading slash, trailing slash, empty, '/', upper case, with space, external URL) and to 5 colliding paths, the others default; random combinations. Per configuration and request host: which handler answers each route (fingerprints taken from a default provider) vs the Coq first-match model; entityID and the five advertised locations vs the model; independently: each path-configured advertised location, with the issuer prefix stripped, must be answered by the handler of its service (configurations with colliding routes are counted separately and only compared with the model), the Issuer of a LogoutResponse and of a refused Response must equal the entityID, the KeyDescriptor certificate must equal the certificate endpoint's and verify an issued assertion; WantAuthRequestsSigned in 10 spellings x SP flag: advertised string = configured string, and advertised xs:true <=> an unsigned request (POST and Redirect) is refused; the exported Endpoint methods vs the generated Gallina on 198 (path, url, host) triples. distinct = (issuer kind, metadata / SSO / attribute endpoint shape, routes distinct)."
+	run.Res.Rule = "provider configurations: every issuer kind (static with/without path and trailing slash, with port; host-derived with / without path and leading slash; Forwarded-derived) with the default endpoints; each of the six endpoints (metadata, certificate, callback, SSO, SLO, attribute) set to each of 8 shapes (custom path with/without leading slash, trailing slash, empty, '/', upper case, with space, external URL) and to 5 colliding paths, the others default; random combinations. Per configuration and request host: which handler answers each route (fingerprints taken from a default provider) vs the Coq first-match model; entityID and the five advertised locations vs the model; independently: each path-configured advertised location, with the issuer prefix stripped, must be answered by the handler of its service (configurations with colliding routes are counted separately and only compared with the model), the Issuer of a LogoutResponse and of a refused Response must equal the entityID, the KeyDescriptor certificate must equal the certificate endpoint's and verify an issued assertion, also after the signing key was replaced in storage; WantAuthRequestsSigned in 10 spellings x SP flag: advertised string = configured string, and advertised xs:true <=> an unsigned request (POST and Redirect) is refused; the exported Endpoint methods vs the generated Gallina on 198 (path, url, host) triples. distinct = (issuer kind, metadata / SSO / attribute endpoint shape, routes distinct)."
 	return run.Finish()
 }
 
